@@ -3,6 +3,7 @@ package rt
 import (
 	"context"
 	"fmt"
+	"github.com/orbs-network/lean-helix-go/spec/types/go/primitives"
 	"time"
 
 	"verif/fakes"
@@ -112,6 +113,9 @@ func (r *Run) cancel() {
 	h := r.H
 	r.Cancelled = true
 	r.ShutdownOK, r.ShutdownTook = h.Shutdown(10 * time.Second)
+	if r.ShutdownOK && r.ShutdownTook > 10*time.Second {
+		r.Inconclusive++ // returned, but only after the 10 s bound: starved, not hung
+	}
 	r.AfterCancel.Sent, r.AfterCancel.Commits, r.AfterCancel.Rounds = h.NSent(), h.NCommits(), h.NRounds()
 	if h.Sch != nil && r.ShutdownOK {
 		if active, cur, stops, regs := h.Sch.Snap(); active {
@@ -182,6 +186,11 @@ func (r *Run) do(op Op) {
 		rec.AbsV = uint64(int(v0) + op.DV)
 		if int(v0)+op.DV < 0 {
 			rec.AbsV = 0
+		}
+		if op.DV == -99 && h.Sch != nil { // the stale trigger a real timer can still hold: the latest pair it was armed for before the current position
+			if hh, vv, ok := h.Sch.LastArmedBefore(primitives.BlockHeight(h0), primitives.View(v0)); ok {
+				rec.AbsH, rec.AbsV = uint64(hh), uint64(vv)
+			}
 		}
 		rec.Forwarded = h.Trigger(rec.AbsH, rec.AbsV)
 		rec.Returned = rec.Forwarded
@@ -274,7 +283,13 @@ func (r *Run) do(op Op) {
 		case <-done:
 			rec.Returned = true
 		case <-time.After(5 * time.Second):
-			rec.Returned = false
+			// blocked or merely starved? a call that blocks stays blocked: give it 40 s more before saying so
+			select {
+			case <-done:
+				rec.Returned, rec.Inconclusive = true, true
+			case <-time.After(40 * time.Second):
+				rec.Returned = false
+			}
 		}
 	}
 	if rec.Inconclusive {
